@@ -55,6 +55,8 @@ CONSTANTS
   OblDirtyRefused,   \* C09: a rollback refuses rows somebody else has changed
   OblIdempotent,     \* C10: a repeated rollback does nothing
   OblFence,          \* C06: confirm/cancel at most once and never both; empty rollback suspends
+  OblP1Atomic,       \* C02: business writes and the undo log are committed together (or not at all)
+  OblHonest,         \* C01/C15: 'rollbacked' is answered only when the rows are restored and the undo log is gone
   AllowXA,           \* BOOLEAN: XA branches take part
   OblXATruthful      \* C17: a phase one that failed (branch rolled back in the database) surfaces as an error
 
@@ -156,7 +158,8 @@ ATBranch(g, rows, named) ==
           /\ lock' = [r \in Rows |-> IF r \in named THEN g ELSE lock[r]]
           /\ before' = [before EXCEPT ![<<g, i>>] = [r \in Rows |-> val[r]]]
           /\ val' = [r \in Rows |-> IF r \in rows THEN g ELSE val[r]]
-          /\ undo' = [undo EXCEPT ![<<g, i>>] = "normal"]
+          /\ \/ undo' = [undo EXCEPT ![<<g, i>>] = "normal"]
+             \/ ~OblP1Atomic /\ UNCHANGED undo      \* the writes are durable, their undo log is not
      ELSE \* refused (lock conflict, or the transaction is no longer active): nothing is committed
           UNCHANGED <<branches, lock, before, val, undo>>
   /\ UNCHANGED <<gst, fence, eff, outcome, sent, net, dups, nforeign>>
@@ -246,6 +249,14 @@ ATRollback(m) ==
             /\ branches' = SetBranch(m.g, m.i, "rollbacked")
   /\ UNCHANGED <<gst, lock, before, fence, eff, outcome, sent, dups, nforeign>>
 
+\* a dishonest client: answers 'rollbacked' for a branch it has not undone (a swallowed undo error)
+ATRollbackLie(m) ==
+  /\ ~OblHonest
+  /\ m \in net /\ m.kind = "rollback" /\ branches[m.g][m.i].kind = "AT" /\ undo[<<m.g, m.i>>] = "normal"
+  /\ net' = net \ {m}
+  /\ branches' = SetBranch(m.g, m.i, "rollbacked")
+  /\ UNCHANGED <<gst, lock, val, undo, before, fence, eff, outcome, sent, dups, nforeign>>
+
 \* the client processes a TCC phase-two request through the fence (C05, C06)
 TCCPhaseTwo(m) ==
   /\ m \in net /\ branches[m.g][m.i].kind = "TCC"
@@ -325,7 +336,7 @@ Next ==
         \/ \E g \in G, a \in Acts : TCCBranch(g, a)
         \/ \E g \in G, i \in BIdx : Try(g, i) \/ Issue(g, i)
         \/ \E r \in Rows : ForeignWrite(r)
-        \/ \E m \in net : Duplicate(m) \/ Lose(m) \/ ATCommit(m) \/ ATRollback(m) \/ TCCPhaseTwo(m)
+        \/ \E m \in net : Duplicate(m) \/ Lose(m) \/ ATCommit(m) \/ ATRollback(m) \/ ATRollbackLie(m) \/ TCCPhaseTwo(m)
   \/ \E g \in G, ok \in BOOLEAN : XABranch(g, ok)
   \/ \E m \in net : XAPhaseTwo(m)
 
